@@ -511,12 +511,19 @@ def synthetic_variant(rng: random.Random) -> dict:
         p["before"] = [child(bk)] + ([dict(child("ok"), chain=rng.random() < 0.5)] if rng.random() < 0.4 else [])
     if rng.random() < 0.8:
         p["after"] = [child(ak)]
+        if rng.random() < 0.4:
+            # a second, slower after-stage running next to the first one
+            p["after"].append({"t": [{"kind": "ok", "out": ["ch_o2"]}, {"kind": "ok", "out": ["ch_o3"]}]})
     if rng.random() < 0.5:
         p["onfail"] = [child(rng.choice(["ok", "term"]))]
+    # the parent's own failure policy decides how a failure of its children / tasks is reported
+    policy = rng.choice([None, None, None, {"continuePipelineOnFailure": True}, {"failPipeline": False}, {"allowSiblingStagesToContinueOnFailure": True}])
+    if policy:
+        p["ctx"] = dict(policy)
     side = st("s", ["a"], [dict(OK), dict(OK)])
     return {
-        "name": f"syn_{bk}_{pk}_{ak}",
-        "confluent": all(k in ("ok", "fc") for k in (bk, ak, pk)),
+        "name": f"syn_{bk}_{pk}_{ak}" + ("_" + next(iter(policy))[:4] if policy else ""),
+        "confluent": all(k in ("ok", "fc") for k in (bk, ak, pk)) and not policy,
         "stages": [st("a"), p, side, st("z", ["p", "s"])],
     }
 
